@@ -41,25 +41,26 @@ def _str_consts(e):
 
 
 def writer_table(fi):
-    """operation class -> tuple of literal tokens written (player placeholder dropped)"""
+    """operation class -> tuple of literal tokens written (player placeholder dropped); the arms are found by
+    their isinstance test on the loop variable over the operations (either branch polarity), not by names"""
+    from .c17 import arms_of, op_var
+    op = op_var(fi.node)
     table = {}
-    for n in ast.walk(fi.node):
-        if not isinstance(n, ast.If):
+    for classes, node, body, test in arms_of(fi.node, op):
+        if len(classes) != 1:
             continue
-        t = n.test
-        if isinstance(t, ast.Call) and isinstance(t.func, ast.Name) and t.func.id == 'isinstance' and len(t.args) == 2 \
-                and isinstance(t.args[0], ast.Name) and t.args[0].id == 'operation' and isinstance(t.args[1], ast.Name):
-            cls = t.args[1].id
-            for st in n.body:
-                if isinstance(st, ast.Assign) and isinstance(st.targets[0], ast.Name) and st.targets[0].id == 'action' \
-                        and not (isinstance(st.value, ast.Constant) and st.value.value is None):
-                    toks = ' '.join(_str_consts(st.value)).split()
-                    table[cls] = (tuple(x for x in toks if x != 'p'), st)
-    # dealing actions are written by the nested helper
+        for st in body:
+            if isinstance(st, ast.Assign) and isinstance(st.targets[0], ast.Name) \
+                    and not (isinstance(st.value, ast.Constant) and st.value.value is None):
+                consts = _str_consts(st.value)
+                if consts:
+                    toks = ' '.join(consts).split()
+                    table[classes[0]] = (tuple(x for x in toks if x != 'p'), st)
+    # dealing actions are written by a nested helper
     for n in ast.walk(fi.node):
-        if isinstance(n, ast.FunctionDef) and n.name != fi.node.name:
+        if isinstance(n, ast.FunctionDef) and n is not fi.node:
             for st in ast.walk(n):
-                if isinstance(st, ast.Assign) and isinstance(st.targets[0], ast.Name) and st.targets[0].id == 'action':
+                if isinstance(st, ast.Assign) and isinstance(st.targets[0], ast.Name):
                     toks = tuple(x for x in ' '.join(_str_consts(st.value)).split() if x != 'p')
                     if toks[:2] == ('d', 'dh'):
                         table['HoleDealing'] = (toks[:2], st)
@@ -130,10 +131,16 @@ def run(chk, ctx) -> None:
             chk.ob('C16.verbs', f'write:{cls}', False, fgs.loc, 'an operation class is written with a verb the PHH grammar does not have', got=wt[cls][0])
     chk.floor('C16.verbs', 16)
     # player numbering: written 1-based from player_index + 1, read back with - 1
-    plus = [n for n in ast.walk(fgs.node) if isinstance(n, ast.FormattedValue) and 'player_index' in ast.unparse(n.value)]
-    ok_w = bool(plus) and all(T.norm(n.value) in (T.spec('operation.player_index + 1'), T.spec('player_index + 1')) for n in plus)
-    gp = [n for n in ast.walk(pa.node) if isinstance(n, ast.FunctionDef) and n.name == 'get_player_index']
-    ok_r = bool(gp) and any(T.norm(x) == T.spec('int(player[1:]) - 1') for n in gp for x in ast.walk(n) if isinstance(x, ast.expr))
+    # every number written right after the literal `p` is a 0-based index plus one
+    plus = []
+    for n in ast.walk(fgs.node):
+        if isinstance(n, ast.JoinedStr):
+            for a, b in zip(n.values, n.values[1:]):
+                if isinstance(a, ast.Constant) and isinstance(a.value, str) and a.value.endswith('p') and isinstance(b, ast.FormattedValue):
+                    plus.append(T.norm(b.value))
+    ok_w = bool(plus) and all(t[0] == 'lin' and t[2] == 1 and len(t[1]) == 1 and t[1][0][1] == 1 for t in plus)
+    gp = [n for n in ast.walk(pa.node) if isinstance(n, ast.FunctionDef) and n is not pa.node]
+    ok_r = any(ctx.m.eq(T.norm(x), 'int(player[1:]) - 1') for n in gp for x in ast.walk(n) if isinstance(x, ast.expr))
     chk.ob('C16.verbs', 'player_numbering', ok_w and ok_r, pa.loc, 'players are written 1-based (index + 1) and read back as number - 1',
            got=f'writer: {ok_w}; reader: {ok_r}')
     # arguments of the parsed operations
@@ -149,7 +156,7 @@ def run(chk, ctx) -> None:
                 if lits in want_calls:
                     calls = [T.norm(c) for st in case.body for c in ast.walk(st) if isinstance(c, ast.Call) and isinstance(c.func, ast.Attribute)
                              and isinstance(c.func.value, ast.Name) and c.func.value.id == 'state']
-                    chk.ob('C16.verbs', f'args:{" ".join(lits)}', calls == [T.spec(want_calls[lits])], ctx.loc(pa, case.pattern),
+                    chk.ob('C16.verbs', f'args:{" ".join(lits)}', len(calls) == 1 and ctx.m.eq(calls[0], want_calls[lits]), ctx.loc(pa, case.pattern),
                            'the parsed operation receives the written value (amount through parse_value, cards and player in order)',
                            got=[T.show(c) for c in calls], want=want_calls[lits])
     sm = {}
@@ -231,8 +238,13 @@ def _fields(chk, ctx, hh, fgs) -> None:
     # names handed to the game constructor
     ok = False
     for n in ast.walk(cg.node):
-        if isinstance(n, ast.If) and T.cond(n.test) == T.spec("name == 'antes' or name == 'blinds_or_straddles'", boolean=True):
-            ok = any(isinstance(s, ast.Assign) and isinstance(s.value, ast.JoinedStr) and 'raw_' in ''.join(_str_consts(s.value)) for s in n.body)
+        if isinstance(n, ast.If):
+            t = T.cond(n.test)
+            pos = ctx.m.eq(t, "name == 'antes' or name == 'blinds_or_straddles'", boolean=True)
+            neg = ctx.m.eq(T.mk_not(t), "name == 'antes' or name == 'blinds_or_straddles'", boolean=True)
+            if pos or neg:
+                body = n.body if pos else n.orelse
+                ok = any(isinstance(s2, ast.Assign) and isinstance(s2.value, ast.JoinedStr) and ''.join(_str_consts(s2.value)) == 'raw_' for s2 in body)
     chk.ob('C16.names', 'HandHistory.create_game', ok, cg.loc, 'antes / blinds_or_straddles are handed to the game as raw_antes / raw_blinds_or_straddles')
     pops = sorted(n.args[0].value for n in ast.walk(cg.node) if isinstance(n, ast.Call) and isinstance(n.func, ast.Attribute) and n.func.attr == 'pop'
                   and n.args and isinstance(n.args[0], ast.Constant))
@@ -258,17 +270,30 @@ def _replay(chk, ctx, hh) -> None:
     if sa is None:
         raise AnalysisError('HandHistory.state_actions vanished')
     q2op = {q: op for op, (v, q) in TRIPLES.items()}
+    svs = [n.targets[0].id for n in ctx.m.assigns(sa.node, 'self.create_state()') if isinstance(n.targets[0], ast.Name)]
+    if len(svs) != 1:
+        raise AnalysisError('state_actions: the replayed state is not created by exactly one self.create_state()')
+    sv = svs[0]
     n = 0
     for node in ast.walk(sa.node):
         if not isinstance(node, ast.If):
             continue
         cans = [c for c in ast.walk(node.test) if isinstance(c, ast.Call) and isinstance(c.func, ast.Attribute)
-                and isinstance(c.func.value, ast.Name) and c.func.value.id == 'state' and c.func.attr.startswith('can_')]
+                and isinstance(c.func.value, ast.Name) and c.func.value.id == sv and c.func.attr.startswith('can_')]
         if len(cans) != 1:
             continue
         q = cans[0]
-        calls = [c for st in node.body for c in ast.walk(st) if isinstance(c, ast.Call) and isinstance(c.func, ast.Attribute)
-                 and isinstance(c.func.value, ast.Name) and c.func.value.id == 'state' and not c.func.attr.startswith('can_')]
+        negated = any(isinstance(x, ast.UnaryOp) and isinstance(x.op, ast.Not) and any(y is q for y in ast.walk(x.operand)) for x in ast.walk(node.test))
+        branch = node.orelse if negated else node.body
+        # the first statements of the branch up to (not into) the next availability test
+        calls = []
+        for st in branch:
+            if isinstance(st, ast.If) and any(isinstance(c, ast.Call) and isinstance(c.func, ast.Attribute) and c.func.attr.startswith('can_') for c in ast.walk(st.test)):
+                break
+            for c in ast.walk(st):
+                if isinstance(c, ast.Call) and isinstance(c.func, ast.Attribute) and isinstance(c.func.value, ast.Name) \
+                        and c.func.value.id == sv and not c.func.attr.startswith('can_'):
+                    calls.append(c)
         want = q2op.get(q.func.attr)
         n += 1
         ok = len(calls) == 1 and calls[0].func.attr == want
@@ -279,9 +304,12 @@ def _replay(chk, ctx, hh) -> None:
                got=[stmt_text(c) for c in calls], want=want)
     chk.floor('C16.pairs', 12)
     # no silent truncation: leftover actions are an error
-    tail = [s for s in sa.body if isinstance(s, ast.If) and T.cond(s.test) == T.truthy(('name', 'actions'))]
-    ok = bool(tail) and any(isinstance(x, ast.Raise) for x in tail[-1].body) and sa.body.index(tail[-1]) == len(sa.body) - 1
-    chk.ob('C16.no_truncation', 'HandHistory.state_actions', ok, sa.loc,
+    qs = [n.targets[0].id for n in ctx.m.assigns(sa.node, 'deque(self.actions)') if isinstance(n.targets[0], ast.Name)]
+    qn = qs[0] if qs else 'actions'
+    last = sa.body[-1] if sa.body else None
+    ok = isinstance(last, ast.If) and ((T.cond(last.test) == T.truthy(('name', qn)) and any(isinstance(x, ast.Raise) for x in last.body))
+                                       or (T.cond(last.test) == T.mk_not(T.truthy(('name', qn))) and any(isinstance(x, ast.Raise) for x in last.orelse)))
+    chk.ob('C16.no_truncation', 'HandHistory.state_actions', bool(qs) and ok, sa.loc,
            'a history whose actions cannot all be applied ends in ValueError, never in a silently shorter replay')
     # a failed action is put back (not dropped) before the repair
     ok = any(isinstance(h, ast.ExceptHandler) and any(isinstance(c, ast.Call) and isinstance(c.func, ast.Attribute) and c.func.attr == 'appendleft'
@@ -320,5 +348,12 @@ def _dump(chk, ctx, hh) -> None:
                                 and any(k.arg == 'parse_float' and getattr(k.value, 'id', '') == 'parse_value' for k in n.keywords) for n in ast.walk(ld.node))
     chk.ob('C16.dump', 'HandHistory.loads', ok, ld.loc if ld else hh.loc, 'decimal chip values are read back through parse_value (not as binary floats)')
     ff = hh.methods.get('_filter_non_fields')
-    ok = ff is not None and "filtered_fields['user_defined_fields'][key] = value" in ast.unparse(ff.node)
+    ok = False
+    if ff is not None:
+        for n in ast.walk(ff.node):
+            if isinstance(n, ast.For) and 'items' in ast.unparse(n.iter) and isinstance(n.target, ast.Tuple) and len(n.target.elts) == 2:
+                k_, v_ = (e.id for e in n.target.elts)
+                ok = any(isinstance(x, ast.Assign) and isinstance(x.targets[0], ast.Subscript) and isinstance(x.targets[0].value, ast.Subscript)
+                         and T.norm(x.targets[0].value.slice) == ('const', 'user_defined_fields') and T.norm(x.targets[0].slice) == ('name', k_)
+                         and T.norm(x.value) == ('name', v_) for x in ast.walk(n))
     chk.ob('C16.dump', 'HandHistory._filter_non_fields', ok, ff.loc if ff else hh.loc, 'keys that are not fields are kept as user-defined fields, not dropped')
